@@ -153,6 +153,19 @@ Theorem tamper_params_changes_digest_input : forall c si sv c' si' sv', opt_si_w
 Proof. exact int_tail_inj. Qed.
 Print Assumptions tamper_params_changes_digest_input.
 
+(* Decoding is a function of the decoded bytes alone: in a sequence of decodes the i-th result (object and covered bytes)
+   is the decode of the i-th input, independent of every other decode.  The model has no state in which a violation could
+   live; for the Go code (results must not share memory with a reused parsing context) this is the obligation tested by the
+   harness's decode-sequence cases, which compare covered bytes and run the validators only after the last decode. *)
+Theorem decode_sequence_independent_data : forall (pre post : list reader) r,
+  nth (length pre) (map read_data (pre ++ r :: post)) RErr = read_data r.
+Proof. exact read_data_seq_independent. Qed.
+Print Assumptions decode_sequence_independent_data.
+Theorem decode_sequence_independent_interest : forall (sha256 : bytes -> bytes) (pre post : list reader) r,
+  nth (length pre) (map (read_interest sha256) (pre ++ r :: post)) RErr = read_interest sha256 r.
+Proof. exact read_interest_seq_independent. Qed.
+Print Assumptions decode_sequence_independent_interest.
+
 (* non-vacuity: an HMAC-typed (4) signed Interest with parameters; the digest component is the hash of the region and
    a model validator with chk = equality accepts *)
 Example c12_example :
